@@ -145,14 +145,14 @@ def main():
                 if src.count(old) != 1:
                     raise SystemExit("%s: %r occurs %d times in %s" % (name, old[:60], src.count(old), rel))
                 open(path, "w", encoding="utf-8", newline="").write(src.replace(old, new))
-        diff = subprocess.run(["git", "-C", scratch, "diff"], check=True, capture_output=True, text=True).stdout
+        diff = subprocess.run(["git", "-C", scratch, "diff"], check=True, capture_output=True).stdout    # bytes: CRLF files
         if not diff.strip():
             raise SystemExit("%s: empty diff" % name)
-        with open(os.path.join(here, name + ".diff"), "w", encoding="utf-8") as f:
-            f.write("# %s\n" % what)
+        with open(os.path.join(here, name + ".diff"), "wb") as f:
+            f.write(("# %s\n" % what).encode("utf-8"))
             f.write(diff)
         # the edited files must still be valid Python
-        for line in diff.splitlines():
+        for line in diff.decode("utf-8").splitlines():
             if line.startswith("+++ b/"):
                 subprocess.run(["/venv/bin/python", "-m", "py_compile", os.path.join(scratch, line[6:])], check=True,
                                env=dict(os.environ, PYTHONDONTWRITEBYTECODE="1"))
